@@ -151,4 +151,13 @@ CHECKS = {
         quick=dict(stages=[st(1500, run="TestJsonSafeArray|TestRunnerInProcess", timeout=900), st(800, run="TestRunnerChildProcess", timeout=900)]),
         thorough=dict(stages=[st(10000, shards=8, run="TestJsonSafeArray|TestRunnerInProcess", timeout=3000), st(4000, shards=8, run="TestRunnerChildProcess", timeout=3000)]),
     ),
+    "C09": dict(
+        pkg="c09", level="translation_validation",
+        rule="exhaustive over the finite set: every generated file of the working tree (6 genny outputs + one wrapper per OW-SPEC block found by an independent YAML scan of models/**) is deleted in a scratch copy, regenerated with genny (built from the module cache) and ow-specgen (built from the tree) and compared byte-for-byte; generated files without a directive/spec and specs without a file are failures; "
+             "every spec block is compared with sim.Catalog and Description() (parameter names, defaults, ranges, dimensions; inputs, states, outputs in spec order) through a YAML reading that does not use the generator's code; "
+             "plus rapid-drawn subsets and orders of spec files handed to one ow-specgen invocation (and of genny directives): the output must not depend on them. Every file / spec block counts as non-trivial; distinct = file path / model name / invocation",
+        assumptions=["genny is built from the module cache at the version go.sum pins", "the comparison is of files, not of behaviour: it shows the checked-in code is the generators' output, so the template-level results of C04/C05 apply to all 41 wrappers and 8 element types"],
+        quick=dict(stages=[st(8, timeout=900)]),
+        thorough=dict(stages=[st(40, shards=5, timeout=3000)]),
+    ),
 }
